@@ -1099,6 +1099,16 @@ func (e *exec) stop(kind string, n int) {
 			}
 		}
 		e.mu.Lock()
+		closed := e.tr.ErrClosed
+		e.mu.Unlock()
+		if !closed && e.s.HandleLag > 0 {
+			// handlers that need HandleLag to return after the cancellation may each still take the
+			// items buffered between the discipline and them, one after another
+			time.Sleep(time.Duration(e.s.HandleLag) * time.Duration(2*e.s.H+8))
+			e.wait()
+			e.pollErr()
+		}
+		e.mu.Lock()
 		e.tr.CancelTookEffect = e.tr.ErrClosed
 		e.mu.Unlock()
 	}
@@ -1141,6 +1151,13 @@ func (e *exec) stop(kind string, n int) {
 	e.mu.Lock()
 	returned := e.tr.StopReturned
 	e.mu.Unlock()
+	if !returned && e.s.HandleLag > 0 {
+		time.Sleep(time.Duration(e.s.HandleLag) * time.Duration(2*e.s.H+8))
+		e.wait()
+		e.mu.Lock()
+		returned = e.tr.StopReturned
+		e.mu.Unlock()
+	}
 	if !returned {
 		return
 	}
